@@ -3,6 +3,7 @@ package main
 import (
 	"github.com/paulmach/orb"
 	"github.com/paulmach/orb/planar"
+	"math"
 )
 
 // C09: planar.RingContains / PolygonContains / MultiPolygonContains on small dyadic lattices.
@@ -199,6 +200,53 @@ func init() {
 			if n%4 == 0 { // the same ring as a hole of a square around everything
 				c09Run(c, "poly", [][][][2]int{{{{-4, -4}, {68, -4}, {68, 68}, {-4, 68}}, r}}, qs)
 			}
+		}
+		// (3c) a hair beside an edge: triangles on the integer grid 0..16, queried 2^-40 above and below the points that
+		// lie exactly on their slanted edges. The model judges the point 1/512 above / below instead (coordinates in units
+		// of 1/512): no other edge passes that close (an edge through grid points stays at least 1/32 away, vertically,
+		// from any half-grid point it does not contain), so the answer is the same.
+		for n := 0; n < c.pick(600, 6000); n++ {
+			r := make([][2]int, 3)
+			for i := range r {
+				r[i] = [2]int{c.rng.Intn(17), c.rng.Intn(17)}
+			}
+			a, b := r[0], r[1]
+			dx, dy := b[0]-a[0], b[1]-a[1]
+			if dx == 0 || dy == 0 || (r[2][0]-a[0])*dy == (r[2][1]-a[1])*dx {
+				continue // the first edge must be slanted, the triangle must have area
+			}
+			g := gcdInt(absInt(dx), absInt(dy))
+			j := 1 + c.rng.Intn(2*g-1)                   // the lattice points of the edge and the points half-way between them, ends excluded
+			qx2, qy2 := 2*a[0]+j*(dx/g), 2*a[1]+j*(dy/g) // twice the coordinates
+			ring := orb.Ring{}
+			var model [][2]int
+			for _, v := range r {
+				ring = append(ring, orb.Point{float64(v[0]), float64(v[1])})
+				model = append(model, [2]int{v[0] * 512, v[1] * 512})
+			}
+			hair := math.Ldexp(1, -40)
+			qs := []orb.Point{{float64(qx2) / 2, float64(qy2)/2 + hair}, {float64(qx2) / 2, float64(qy2)/2 - hair}, {float64(qx2) / 2, float64(qy2) / 2}}
+			mq := [][2]int{{qx2 * 256, qy2*256 + 1}, {qx2 * 256, qy2*256 - 1}, {qx2 * 256, qy2 * 256}}
+			e := containsEv{K: "contains", Fn: "ring", MP: [][][][2]int{{model}}, Q: mq, NT: 1}
+			if n%3 == 1 { // as a hole of a big square: a hair outside the hole is in the polygon
+				e.Fn = "poly"
+				e.MP = [][][][2]int{{{{-512, -512}, {17 * 512, -512}, {17 * 512, 17 * 512}, {-512, 17 * 512}}, model}}
+			}
+			setCurrent("planar.RingContains(hair)", e)
+			site := guard(func() {
+				for _, q := range qs {
+					in := planar.RingContains(ring, q)
+					if e.Fn == "poly" {
+						in = planar.PolygonContains(orb.Polygon{{{-1, -1}, {17, -1}, {17, 17}, {-1, 17}}, ring}, q)
+					}
+					e.Ans = append(e.Ans, b2i(in))
+				}
+			})
+			if site != "" {
+				c.emit(panicEvent("planar.RingContains(hair)", site, e))
+				continue
+			}
+			c.emit(e)
 		}
 		// (4) polygons with holes and multipolygons from small boxes/triangles (holes may touch or
 		// cross the outer ring: the statement is pointwise, "outer and no hole", whatever the rings are).
